@@ -139,7 +139,7 @@ def _cols(m, g):
     out = {}
     for k in g.keys():
         v = g[k]
-        comps = list(v._xyz.items()) if hasattr(v, "_xyz") else [("", v)]
+        comps = list(C.vcomps(v).items()) if C.is_vec(v) else [("", v)]
         for c, a in comps:
             out[k + ("." + c if c else "")] = a
     return out
